@@ -220,6 +220,16 @@ func (g GRPCAPI) ServeWhoRaw(id uint32, tag string) error {
 	return nil
 }
 
+// AcceptClose reserves the id with the broker's Accept and closes the listener again without ever
+// accepting on it (an application that changed its mind).
+func (g GRPCAPI) AcceptClose(id uint32) error {
+	ln, err := g.B.Accept(id)
+	if err != nil {
+		return err
+	}
+	return ln.Close()
+}
+
 // ServeWhoRawCloser is ServeWhoRaw for an application that closes its listener when it is done: the
 // returned function stops the server and closes the listener.
 func (g GRPCAPI) ServeWhoRawCloser(id uint32, tag string) (func(), error) {
@@ -378,6 +388,14 @@ func (im *Impl) Do(c Cmd) Res {
 		return Res{OK: true, S: string(b), N: c.N}
 	case "serve":
 		im.Broker.ServeWho(c.ID, c.S)
+		return Res{OK: true}
+	case "accept_close":
+		// the application reserves the id with the broker's raw Accept and closes the listener again, unused
+		if gb, isG := im.Broker.(GRPCAPI); isG {
+			if err := gb.AcceptClose(c.ID); err != nil {
+				return Res{Err: err.Error()}
+			}
+		}
 		return Res{OK: true}
 	case "dial":
 		tag, err := im.Broker.DialWho(c.ID)
